@@ -544,6 +544,37 @@ pub fn scripted(curve: Curve) -> Vec<(&'static str, Statement)> {
             Op::Constrain(Expr::sub(Expr::V(0), Expr::K(S::U(7)))),
         ]),
     ));
+    // hand-built handles that refer FORWARD: a constraint written before the commitment /
+    // the gate it names exists on that role (Variable is a public enum; weights are only
+    // flattened at prove / verify time, so this is legal and must mean what it spells)
+    out.push((
+        "forward-reference-to-later-commitment-and-gate",
+        base(vec![
+            Op::Commit { v: S::U(5), r: S::U(9) },
+            Op::Constrain(Expr::sub(Expr::Raw(VK::C(0)), Expr::K(S::U(5)))),
+            Op::Constrain(Expr::sub(Expr::scale(Expr::Raw(VK::C(1)), Coef::Lit(S::U(3))), Expr::K(S::U(21)))),
+            Op::Constrain(Expr::sub(Expr::Raw(VK::O(0)), Expr::K(S::U(35)))),
+            Op::Commit { v: S::U(7), r: S::U(11) },
+            Op::AllocMul(Some((lit(5), lit(7)))),
+            Op::Constrain(Expr::sub(Expr::V(2), Expr::V(0))),
+            Op::Constrain(Expr::sub(Expr::V(3), Expr::V(1))),
+        ]),
+    ));
+    out.push((
+        "forward-reference-from-phase1-into-phase2",
+        base(vec![
+            Op::Constrain(Expr::sub(Expr::add(Expr::Raw(VK::C(0)), Expr::Raw(VK::C(1))), Expr::K(S::U(12)))),
+            Op::Commit { v: S::U(4), r: S::U(3) },
+            Op::AllocMul(Some((lit(2), lit(3)))),
+            Op::Constrain(Expr::sub(Expr::Raw(VK::L(1)), Expr::K(S::U(8)))),
+            Op::Commit { v: S::U(8), r: S::N(2) },
+            Op::Randomized(vec![
+                Op::Challenge { label: 5 },
+                Op::AllocMul(Some((lit(8), lit(1)))),
+                Op::Constrain(Expr::scale(Expr::sub(Expr::Raw(VK::O(1)), Expr::Raw(VK::C(1))), Coef::Chal(S::U(1), vec![0]))),
+            ]),
+        ]),
+    ));
     out.push((
         "one-gate",
         base(vec![
